@@ -55,6 +55,9 @@ type unitResult struct {
 	Violations []violation    `json:"violations"`
 	SigCounts  map[string]int `json:"sig_counts"`
 	Goals      []string       `json:"goals"`
+	Required   []string       `json:"required_goals,omitempty"`
+	ReqProp    string         `json:"req_prop,omitempty"`
+	ReqMsg     string         `json:"req_msg,omitempty"`
 	HarnessErr string         `json:"harness_error,omitempty"`
 	Extra      map[string]any `json:"extra,omitempty"`
 }
@@ -325,6 +328,51 @@ func main() {
 				continue
 			}
 			fresh = append(fresh, v)
+		}
+	}
+	// exists-style clauses: every required goal of a unit must be witnessed in some shard
+	type goalAgg struct {
+		seen       map[string]bool
+		req        []string
+		prop, msg  string
+		exhaustive bool
+	}
+	ga := map[string]*goalAgg{}
+	for _, r := range results {
+		if r == nil {
+			continue
+		}
+		g := ga[r.Unit]
+		if g == nil {
+			g = &goalAgg{seen: map[string]bool{}, exhaustive: true}
+			ga[r.Unit] = g
+		}
+		for _, x := range r.Goals {
+			g.seen[x] = true
+		}
+		if len(r.Required) > 0 {
+			g.req, g.prop, g.msg = r.Required, r.ReqProp, r.ReqMsg
+		}
+		if ex, ok := r.Stats["exhaustive"].(bool); ok && !ex {
+			g.exhaustive = false
+		}
+	}
+	for unit, g := range ga {
+		if !g.exhaustive {
+			continue
+		}
+		for _, want := range g.req {
+			if !g.seen[want] {
+				v := violation{Property: prop, Clause: "goal", Sig: g.prop, Scenario: unit, Detail: fmt.Sprintf("%s: %s", want, g.msg)}
+				if k, ok := kf[v.Sig]; ok && k.Status == "known" {
+					if !knownSeen[v.Sig] {
+						knownSeen[v.Sig] = true
+						fmt.Printf("KNOWN-FINDING: property=%s %s [sig %s]\n", prop, k.What, v.Sig)
+					}
+					continue
+				}
+				fresh = append(fresh, v)
+			}
 		}
 	}
 	// one replay artefact per fresh signature
